@@ -14,7 +14,7 @@ FP = {'ev_periodic_start.function_pointer_call.1': ['resched'], 'env_advance.fun
 def ob(name, nocc, nstep, **kw):
     o = dict(name=name, src='h_sched.c', defs=['NOCC=%d' % nocc, 'NSTEP=%d' % nstep, 'ORC_FAST'], units=['src/task.c'], incl=['src/echsd.c'],
              replay_units='all', replay_extra_units=['src/logger.c'], unwind=max(nocc, nstep, 4) + 2, unwindset={'put_task_slot.*': 18, 'get_task_slot.*': 18, 'make_task_pool.*': 3, 'make_chld_pool.*': 5, 'memset.*': 4, 'strlen.*': 10, 'strdup.*': 10, 'strcpy.*': 10, 'memcpy.*': 10},
-             solver='cadical', timeout=1200, mem_gb=16, object_bits=12, checks=['--bounds-check', '--pointer-check'], restrict_fp=FP, replace_calls={'add_chkpnt': 'env_add_chkpnt', 'make_chld': 'env_make_chld', 'free_chld': 'env_free_chld'}, excludes=['C04-1'],
+             solver='kissat', slice_formula=True, timeout=800, mem_gb=6, object_bits=12, checks=['--bounds-check', '--pointer-check'], restrict_fp=FP, replace_calls={'add_chkpnt': 'env_add_chkpnt', 'make_chld': 'env_make_chld', 'free_chld': 'env_free_chld'}, excludes=['C04-1'],
              allow_nobody=['snprintf', 'lseek', 'echs_log', 'echs_errlog', 'obint_name', 'dt_strf', 'free_strlst', 'strdup'],
              enc=['_inject_task1', 'resched', 'unwind_till', 'instant_to_tstamp', 'task_cb', 'run_task', 'chld_cb', 'unsched', 'make_task', 'free_task', 'get_task', 'put_task_slot'],
              sym='occurrence instants, load time, step times, which child exits when, limit unset/2',
@@ -27,6 +27,6 @@ OBLIGATIONS = [
        enc=['instant_to_tstamp'], sym='the instant (date, second of day or all-day)', bounds='every instant of 2001..2099', outside='nothing within the supported range',
        stubs=['ORC-cal oracle (validated against timegm by setup)']),
     ob('sched_occ2_step2', 2, 2),
-    ob('sched_occ2_step3', 2, 3, timeout=2400),
+    ob('sched_occ2_step3', 2, 3, timeout=800),
     ob('sched_occ3_step4', 3, 4, tiers=('thorough',), timeout=3400, mem_gb=24),
 ]
